@@ -36,6 +36,31 @@ def fault_task(fname, method):
     return fn
 
 
+def generated_fault_task(i):
+    """a generated well-posed specification (contracts/randspec.py) with ONE fault of the catalogue injected at a generated
+    position: declaration or transcription must raise; the same specification without the fault must transcribe"""
+    def fn():
+        from . import randspec
+        from .spec import Spec
+        c = ctx()
+        kw0 = randspec.make(i)
+        kw, fault = randspec.make_fault(i, kw0)
+        fname = fault[0] if fault else "algebraic-with-explicit-scheme"
+        name = "C20/R%03d-%s[%s]|rejects" % (i, kw["method"], fname)
+        try:
+            spec = Spec(fault=fault, **kw)
+            spec.build()
+            spec.ocp._transcribed
+        except Exception as e:
+            import traceback
+            tb = traceback.extract_tb(e.__traceback__)
+            where = next((fr for fr in reversed(tb) if "/rockit/" in fr.filename), tb[-1])
+            c.ok("%s:raises" % name, detail="%s in %s:%s: %s" % (type(e).__name__, where.filename.split("/")[-1], where.name, str(e)[:100]), backend="z3")
+            return
+        c.fail("%s:raises" % name, "the ill-posed specification (%s at position %s) was transcribed without any exception" % (fname, fault[1] if fault else "-"))
+    return fn
+
+
 def control_task(method):
     def fn():
         c = ctx()
@@ -93,4 +118,9 @@ def tasks(tier):
         for fname in faults():
             out.append(Task("C20/%s/%s" % (fname, m), fault_task(fname, m), kind="bounded", bound=dict(fault=fname, method=m, N=2),
                             replay=dict(harness="fault_probe", fault=fname, method=m)))
+    from . import randspec
+    for i in range(120 if tier == "thorough" else 45):
+        kw = randspec.make(i)
+        out.append(Task("C20/R%03d-%s" % (i, kw["method"]), generated_fault_task(i), kind="bounded", bound=dict(generated=i),
+                        replay=dict(harness="generated_fault_probe", index=i)))
     return out
